@@ -4,6 +4,11 @@ set -e
 cd "$(dirname "$0")"
 export CARGO_NET_OFFLINE=true
 [ -f harness/Cargo.lock ] || cp /repo/Cargo.lock harness/Cargo.lock
-(cd lean && lake build 2>&1 | tail -5)
-(cd harness && cargo build --release --offline --workspace 2>&1 | tail -5)
+for p in props/C*.py; do
+  id=$(basename "$p" .py)
+  lc=$(echo "$id" | tr 'A-Z' 'a-z')
+  echo "== $id"
+  (cd lean && lake build "LeptosModel.Theorems.$id" "lm_$lc" 2>&1 | tail -3)
+  (cd harness && cargo build --release --offline -p "hx-$lc" 2>&1 | tail -3)
+done
 echo setup-done
